@@ -12,24 +12,54 @@ MEM_BUDGET_GB = float(os.environ.get("VERIF_MEM_GB", "52"))
 
 
 class MemGate:
-    """Admit harness runs while the sum of their memory classes stays within the budget."""
+    """Admit harness runs while the sum of their memory classes stays within the budget. The ledger is a file shared by
+    all check processes on the machine (flock), so concurrent checks do not oversubscribe the box (no swap here)."""
+    LEDGER = os.path.join(os.environ.get("TMPDIR", "/tmp"), "pdbv.memgate.json")
+
     def __init__(self, budget):
         self.budget = budget
-        self.used = 0.0
-        self.cv = threading.Condition()
+
+    def _with_ledger(self, fn):
+        import fcntl
+        fd = os.open(self.LEDGER, os.O_RDWR | os.O_CREAT, 0o666)
+        try:
+            fcntl.flock(fd, fcntl.LOCK_EX)
+            raw = os.read(fd, 1 << 20).decode() or "[]"
+            try:
+                led = json.loads(raw)
+            except ValueError:
+                led = []
+            alive = []
+            for e in led:
+                try:
+                    os.kill(e["pid"], 0)
+                    alive.append(e)
+                except OSError:
+                    pass
+            res, alive = fn(alive)
+            os.lseek(fd, 0, 0)
+            os.ftruncate(fd, 0)
+            os.write(fd, json.dumps(alive).encode())
+            return res
+        finally:
+            os.close(fd)
 
     def acquire(self, gb):
         gb = min(gb, self.budget)
-        with self.cv:
-            while self.used + gb > self.budget + 1e-9:
-                self.cv.wait()
-            self.used += gb
-        return gb
+        tok = "%d.%d.%f" % (os.getpid(), threading.get_ident(), time.time())
 
-    def release(self, gb):
-        with self.cv:
-            self.used -= gb
-            self.cv.notify_all()
+        def tryadd(led):
+            used = sum(e["gb"] for e in led)
+            if used + gb <= self.budget + 1e-9:
+                led.append({"pid": os.getpid(), "tok": tok, "gb": gb})
+                return True, led
+            return False, led
+        while not self._with_ledger(tryadd):
+            time.sleep(3)
+        return tok
+
+    def release(self, tok):
+        self._with_ledger(lambda led: (None, [e for e in led if e.get("tok") != tok]))
 
 
 def select(prop, tier, only, seed):
@@ -114,7 +144,7 @@ def playback(h, crate, scratch, timeout_s, mem_gb):
     return {"reproduced": reproduced, "tests": [{"name": n, "code": c} for c, n in tests], "native_runs": results}
 
 
-def run_property(prop, tier, seed, only=None, keep=False, jobs=None, no_replay=False):
+def run_property(prop, tier, seed, only=None, keep=False, jobs=None, no_replay=False, evidence_dir=None):
     t_start = time.time()
     hs = select(prop, tier, only, seed)
     if not hs:
@@ -149,7 +179,7 @@ def run_property(prop, tier, seed, only=None, keep=False, jobs=None, no_replay=F
                 gb = gate.acquire(h.get("mem_gb", 6))
                 try:
                     tmo = h.get("timeout", 300)
-                    r = pdbv.run_one(h, crate, scratch, tdir, tmo, h.get("mem_gb", 6) * 1.5 + 4)
+                    r = pdbv.run_one(h, crate, scratch, tdir, tmo, h.get("mem_gb", 6) * 2 + 8)
                     r["h"] = h
                     r["scratch"] = scratch
                     r["crate"] = crate
@@ -241,7 +271,8 @@ def run_property(prop, tier, seed, only=None, keep=False, jobs=None, no_replay=F
         exit_code = 0
         out_lines = []
         nviol = 0
-        os.makedirs(os.path.join(pdbv.VERIF, "replays", prop), exist_ok=True)
+        replay_root = os.path.join(pdbv.VERIF, "replays") if not evidence_dir else os.path.join(evidence_dir, "replays")
+        os.makedirs(os.path.join(replay_root, prop), exist_ok=True)
         reported_known = set()
         for r, failed in violations:
             h = r["h"]
@@ -258,7 +289,7 @@ def run_property(prop, tier, seed, only=None, keep=False, jobs=None, no_replay=F
                         continue
                     kf = f
                     break
-            rp = os.path.join(pdbv.VERIF, "replays", prop, "%s.%s.json" % (hname, lab))
+            rp = os.path.join(replay_root, prop, "%s.%s.json" % (hname, lab))
             rec = {"property": prop, "harness": h["name"], "labels": labels, "failed_checks": [
                 {"desc": c.get("desc"), "loc": short_loc(c.get("loc")), "check": c.get("name")} for c in failed[:20]],
                 "kani_cmd": r["cmd"], "inputs": h.get("inputs"), "bounds": h.get("bounds")}
@@ -342,8 +373,9 @@ def run_property(prop, tier, seed, only=None, keep=False, jobs=None, no_replay=F
             "wall_s": round(wall, 1),
             "violations": nviol,
         }
-        os.makedirs(os.path.join(pdbv.VERIF, "evidence"), exist_ok=True)
-        json.dump(ev, open(os.path.join(pdbv.VERIF, "evidence", prop + ".json"), "w"), indent=1)
+        evdir = evidence_dir or os.path.join(pdbv.VERIF, "evidence")
+        os.makedirs(evdir, exist_ok=True)
+        json.dump(ev, open(os.path.join(evdir, prop + ".json"), "w"), indent=1)
         for l in out_lines:
             print(l)
         print("%s tier=%s: %d/%d harnesses discharged, %d violation(s), %d inconclusive, %.0fs" % (
@@ -366,13 +398,14 @@ def main():
     ap.add_argument("--jobs", type=int)
     ap.add_argument("--no-replay", action="store_true")
     ap.add_argument("--list", action="store_true")
+    ap.add_argument("--evidence-dir", help="write evidence/replays elsewhere (development runs against patched copies)")
     a = ap.parse_args()
     seed = int(os.environ.get("VERIF_SEED", "0") or 0)
     if a.list:
         for h in registry.harnesses(a.prop):
             print(h["tier"], h["name"])
         return 0
-    return run_property(a.prop, a.tier, seed, a.only, a.keep, a.jobs, a.no_replay)
+    return run_property(a.prop, a.tier, seed, a.only, a.keep, a.jobs, a.no_replay, a.evidence_dir)
 
 
 if __name__ == "__main__":
